@@ -362,7 +362,7 @@ class RealSteps(_Base):
                         out.append(dict(sys=sysname, tf=tf, tstep=tstep, fixt=fixt,
                                         events=[pe[a], pe[b]], criteria=crit))
                 if tier == 'thorough' and sysname == 'static3':
-                    small = [e for e in pe if e['t'] in (0.1, 0.25, 0.3, 0.3001, tf)]
+                    small = [e for e in pe if e.get('t') in (0.1, 0.25, 0.3, 0.3001, tf)]
                     for tri in itertools.combinations_with_replacement(range(len(small)), 3):
                         out.append(dict(sys=sysname, tf=tf, tstep=0.1, fixt=1,
                                         events=[small[i] for i in tri], criteria=crit))
